@@ -1,6 +1,8 @@
 import GoldModel.Drive.Common
 import GoldModel.Drive.Sym
 import GoldModel.Drive.SymSpec
+import GoldModel.Drive.Tree
 import GoldModel.Lemmas.SymTab
+import GoldModel.Model.EntityTree
 import GoldModel.Model.SymTab
 import GoldModel.Props.C18
